@@ -35,6 +35,10 @@ type c11Case struct {
 	Preset      []hdrOp       `json:"preset"`
 	Handler     handlerProg   `json:"handler"`
 	Req         Req           `json:"request"`
+	// Nested: between its header operations and WriteHeader the handler sends a second request (same request, the
+	// same program with every value suffixed "-nested") through the same wrapped handler - the deterministic
+	// stand-in for a concurrent exchange (lesson of seeded change C11-h: response-header slices shared between exchanges)
+	Nested bool `json:"nested,omitempty"`
 }
 
 type spyHandler struct {
@@ -43,6 +47,7 @@ type spyHandler struct {
 	gotReq *http.Request
 	gotW   http.ResponseWriter
 	entry  http.Header // response headers as the handler found them
+	nested func()      // run between the header operations and WriteHeader
 }
 
 func applyOp(h http.Header, op hdrOp) {
@@ -64,6 +69,9 @@ func (s *spyHandler) ServeHTTP(w http.ResponseWriter, r *http.Request) {
 		if !op.After {
 			applyOp(w.Header(), op)
 		}
+	}
+	if s.nested != nil {
+		s.nested()
 	}
 	if s.prog.Status != 0 {
 		w.WriteHeader(s.prog.Status)
@@ -105,6 +113,31 @@ func c11Run(r *Run, l *Local, cs c11Case, mw *cors.Middleware) {
 	w := newRW()
 	req := q.httpReq()
 	w.inner = spy
+	var nestedGot, nestedSim Obs
+	nestedRan := false
+	if cs.Nested {
+		nprog := handlerProg{Status: cs.Handler.Status, Body: cs.Handler.Body}
+		for _, op := range cs.Handler.Ops {
+			op.Val += "-nested"
+			nprog.Ops = append(nprog.Ops, op)
+		}
+		spy.nested = func() {
+			nspy := &spyHandler{prog: nprog}
+			nw := newRW()
+			nw.inner = nspy
+			nreq := q.httpReq()
+			presetMW{cs.Preset, wrappedOnce(mw)}.ServeHTTP(nw, nreq)
+			nestedGot = nw.obs(nspy.calls)
+			if nspy.calls == 1 {
+				simSpy := &spyHandler{prog: nprog}
+				simW := newRW()
+				simW.h = cloneHeader(nspy.entry)
+				simSpy.ServeHTTP(simW, nreq)
+				nestedSim = simW.obs(1)
+				nestedRan = true
+			}
+		}
+	}
 	presetMW{cs.Preset, wrappedOnce(mw)}.ServeHTTP(w, req)
 	got := w.obs(spy.calls)
 	l.evals++
@@ -167,6 +200,9 @@ func c11Run(r *Run, l *Local, cs c11Case, mw *cors.Middleware) {
 	if !equalHeaderMaps(sim.Headers, got.Headers) {
 		report("handler-output-altered", fmt.Sprintf("final headers differ from the handler's program applied to the headers it found: expected %v", Obs{Status: sim.Status, Headers: sim.Headers}))
 	}
+	if nestedRan && !equalHeaderMaps(nestedSim.Headers, nestedGot.Headers) {
+		report("handler-output-altered", fmt.Sprintf("final headers of the nested exchange %v differ from its handler's program applied to the headers it found: expected %v", nestedGot, Obs{Status: nestedSim.Status, Headers: nestedSim.Headers}))
+	}
 }
 
 func equalHeaderMaps(a, b map[string][]string) bool {
@@ -208,7 +244,7 @@ func randPreset(rng *rand.Rand) []hdrOp {
 func TestVerif_C11(t *testing.T) {
 	r := newRun(t, "C11")
 	r.Rule("configurations (C02 product slice, zero value, Reconfigure(nil) after a configuration) x debug x the preflight-predicate boundary: 10 method tokens x Origin in {absent, zero values, [\"\"], one value, two values} x ACRM likewise (exhaustive 250-cell grid per configuration) " +
-		"x inner handlers (status none/200/204/404/500/301, bodies, Set/Add/Del programs on Vary/ACAO/ACAC/ACEH/Content-Type/X-Custom/ACAM/ACMA/Set-Cookie before and after WriteHeader) x pre-set headers from an outer middleware. " +
+		"x inner handlers (status none/200/204/404/500/301, bodies, Set/Add/Del programs on Vary/ACAO/ACAC/ACEH/Content-Type/X-Custom/ACAM/ACMA/Set-Cookie before and after WriteHeader) x pre-set headers from an outer middleware; in a third of the cells the handler sends a nested request with differing values through the same middleware between its header operations and WriteHeader (two exchanges in flight at once). " +
 		"evaluation = one exchange compared with a reference run of the same chain without the CORS middleware, plus identity/count spy; non-trivial = every cell (each exercises the predicate or the pass-through contract), distinct by hash of configuration, chain and request")
 	r.Assume("the reference run (same outer chain and handler, CORS middleware removed) defines the handler's own output")
 
@@ -322,7 +358,10 @@ func TestVerif_C11(t *testing.T) {
 						if rng.IntN(8) == 0 {
 							q.Header[hACRPN] = []string{"true"}
 						}
-						cs := c11Case{Spec: spec, Passthrough: pass, Debug: d == 1, Preset: preset, Handler: prog, Req: q}
+						cs := c11Case{Spec: spec, Passthrough: pass, Debug: d == 1, Preset: preset, Handler: prog, Req: q, Nested: (oi+2*ai+pi)%3 == 0}
+						if cs.Nested {
+							l.counters["cells_with_nested_exchange"]++
+						}
 						c11Run(r, l, cs, mws[d])
 						l.NontrivialKey(key, strconv.Itoa(d), jsonStr(prog), jsonStr(preset), reqString(q))
 						if l.nsamp < 2 && pi == 1 && oi == 3 && ai == 3 && m == "OPTIONS" {
